@@ -367,6 +367,7 @@ pub fn corr(run: &mut Run) {
     discipline_stream(run);
     leak_stream(run);
     perm_leak_stream(run);
+    ot_leak_stream(run);
 }
 
 // ------------------------------------------------------------------------------------------------
@@ -807,7 +808,7 @@ fn view_entries(ir: &[IrNode], vals: &[Value], ins: &[IOStatus], p: usize) -> Ve
 pub fn leak_stream(run: &mut Run) {
     let mut rng = run.rng("leak-search");
     let n = run.tier.scale(60, 600);
-    const TAPES: usize = 4;
+    const TAPES: usize = 16;
     for it in 0..n {
         let fam = match catch(|| match it % 3 { 0 => truncate_family(&mut rng), 1 => tensor_family(&mut rng, 3), _ => arith_family(&mut rng, 5) }) {
             Ok(Ok(f)) => f,
@@ -846,12 +847,15 @@ pub fn leak_stream(run: &mut Run) {
             if sec_a == sec_b {
                 continue;
             }
-            let seeds: Vec<[u8; 16]> = (0..TAPES).map(|_| rng.seed16()).collect();
+            // 16 tapes per secret vector, all different. A value gated by one random bit (a product with a
+            // mask bit) is constant over 16 tapes with probability 2^-15; a combination is reported only if it
+            // is constant under BOTH secret vectors, with different constants (chance below 2^-30 per candidate)
+            let seeds: Vec<Vec<[u8; 16]>> = (0..2).map(|_| (0..TAPES).map(|_| rng.seed16()).collect()).collect();
             let mut views: Vec<Vec<Vec<(Type, Vec<(usize, u128)>)>>> = vec![];
             let mut ok = true;
-            for sec in [&sec_a, &sec_b] {
+            for (si, sec) in [&sec_a, &sec_b].into_iter().enumerate() {
                 let mut per_tape = vec![];
-                for seed in &seeds {
+                for seed in &seeds[si] {
                     let r = catch(|| -> ciphercore_base::errors::Result<Vec<Value>> {
                         let mut prng = PRNG::new(Some(*seed))?;
                         let gin = global_inputs(&ins, &fam.in_types, sec, &mut prng)?;
@@ -934,7 +938,7 @@ pub fn leak_stream(run: &mut Run) {
                         if (1..TAPES).all(|t| comb(0, t) == a0) {
                             // tape-invariant under the first secret vector: compare with the second
                             let b0 = comb(1, 0);
-                            if b0 != a0 || (1..TAPES).any(|t| comb(1, t) != b0) {
+                            if b0 != a0 && (1..TAPES).all(|t| comb(1, t) == b0) {
                                 hit = Some((ix.to_vec(), signs, a0, b0));
                                 return true;
                             }
@@ -945,7 +949,9 @@ pub fn leak_stream(run: &mut Run) {
                 if rec(0, 0, m, &mut idx, &mut test) {
                     let (ix, signs, a0, b0) = hit.unwrap();
                     let terms: Vec<String> = ix.iter().enumerate().map(|(k, j)| format!("{}node{}", if k > 0 && (signs >> (k - 1)) & 1 == 1 { "-" } else { "+" }, views[0][0][gi].1[sel[*j]].0)).collect();
-                    found = Some(format!("the combination {} of view entries (element 0, type {:?}) does not depend on the tape ({} tapes) but equals {} for inputs {:?} and {} for inputs {:?}", terms.join(" "), ty, TAPES, a0, sec_a.iter().map(crate::vals::bytes_of).collect::<Vec<_>>(), b0, sec_b.iter().map(crate::vals::bytes_of).collect::<Vec<_>>()));
+                    let what: Vec<String> = ix.iter().map(|j| { let i = views[0][0][gi].1[sel[*j]].0; format!("node{}={}{:?}{}", i, op_tag(&ir[i].op), ir[i].deps, if ir[i].sends.is_empty() { String::new() } else { format!("sends{:?}", ir[i].sends) }) }).collect();
+                    let under_b: Vec<u128> = (0..TAPES).map(|t| { let mut acc: u128 = 0; for (k, j) in ix.iter().enumerate() { let neg = k > 0 && (signs >> (k - 1)) & 1 == 1; let v = views[1][t][gi].1[sel[*j]].1; acc = if neg { acc.wrapping_sub(v) } else { acc.wrapping_add(v) } & mask; } acc }).collect();
+                    found = Some(format!("the combination {} of view entries (element 0, type {:?}) is the same for all tapes ({} tapes per secret vector, all different) but equals {} for inputs {:?} and {:?} (per tape) for inputs {:?} ; {}", terms.join(" "), ty, TAPES, a0, sec_a.iter().map(crate::vals::bytes_of).collect::<Vec<_>>(), under_b, sec_b.iter().map(crate::vals::bytes_of).collect::<Vec<_>>(), what.join(" ")));
                     break 'groups;
                 }
             }
@@ -964,7 +970,7 @@ pub fn perm_leak_stream(run: &mut Run) {
     use ciphercore_base::graphs::util::simple_context;
     let mut rng = run.rng("perm-leak-search");
     let n = run.tier.scale(4, 24);
-    const TAPES: usize = 6;
+    const TAPES: usize = 8;
     for it in 0..n {
         let rows = 5 + rng.below(2);
         let kb = 5 + rng.below(3);
@@ -999,12 +1005,14 @@ pub fn perm_leak_stream(run: &mut Run) {
         if sec_a[0] == sec_b[0] {
             continue;
         }
-        let seeds: Vec<[u8; 16]> = (0..TAPES).map(|_| rng.seed16()).collect();
+        // different tapes for the two key columns; a quotient is reported only if it is constant under both
+        // key columns, with different constants
+        let seeds: Vec<Vec<[u8; 16]>> = (0..2).map(|_| (0..TAPES).map(|_| rng.seed16()).collect()).collect();
         let mut all_vals: Vec<Vec<Vec<Value>>> = vec![];
         let mut ok = true;
-        for sec in [&sec_a, &sec_b] {
+        for (si, sec) in [&sec_a, &sec_b].into_iter().enumerate() {
             let mut per_tape = vec![];
-            for seed in &seeds {
+            for seed in &seeds[si] {
                 let r = catch(|| -> ciphercore_base::errors::Result<Vec<Value>> {
                     let mut prng = PRNG::new(Some(*seed))?;
                     let gin = global_inputs(&ins, &in_types, sec, &mut prng)?;
@@ -1117,7 +1125,7 @@ pub fn perm_leak_stream(run: &mut Run) {
                         let a0 = f(0, 0);
                         if (1..TAPES).all(|t| f(0, t) == a0) {
                             let b0 = f(1, 0);
-                            if b0 != a0 || (1..TAPES).any(|t| f(1, t) != b0) {
+                            if b0 != a0 && (1..TAPES).all(|t| f(1, t) == b0) {
                                 found = Some(format!("{} of the permutations at nodes {} and {} does not depend on the tape ({} tapes) but equals {:?} for key column {:?} and {:?} for key column {:?}", if form == 0 { "a∘b⁻¹" } else { "a⁻¹∘b" }, ia, ib, TAPES, a0, crate::vals::bytes_of(&sec_a[0]), b0, crate::vals::bytes_of(&sec_b[0])));
                                 break 'pairs;
                             }
@@ -1250,9 +1258,10 @@ fn gen_sort_skeletons(run: &mut Run, out_dir: &str, obligations: &mut Vec<serde_
         for kb in 1..=12u64 {
             v.push((3 + kb % 4, kb, kb % 2 == 0, kb % 3 != 0));
         }
+        // (the list-based class analysis is quadratic per opening: 64 key bits = 32 openings over ~1200
+        // nodes took more than half an hour of kernel time; 24 bits is the largest configuration kept)
         v.push((8, 16, false, true));
-        v.push((2, 32, true, false));
-        v.push((5, 64, true, true));
+        v.push((2, 24, true, false));
         v
     };
     let mut k = 0;
@@ -1282,6 +1291,210 @@ fn gen_sort_skeletons(run: &mut Run, out_dir: &str, obligations: &mut Vec<serde_
     body += "end CCV.Generated.C03Sort\n";
     std::fs::write(format!("{}/C03Sort.lean", out_dir), body).expect("write");
     true
+}
+
+/// Search for a concrete leak through an oblivious-transfer step (integer × bit, both private): a
+/// non-recipient observer must not be able to decide the other party's bit.  Candidates are predicates
+/// "[F = 0] = β" where F is a ±1 combination of at most five integer values the observer sees or can
+/// compute and β one of the bits it knows (its own share of the bit, a constant …).  Reported iff the
+/// predicate has one truth value for ALL tapes under one secret bit and the opposite one for all tapes
+/// under the flipped bit (8 tapes each: chance 2^-16 per candidate on a sound protocol).
+pub fn ot_leak_stream(run: &mut Run) {
+    use ciphercore_base::graphs::util::simple_context;
+    let mut rng = run.rng("ot-leak-search");
+    let n = run.tier.scale(6, 36);
+    const TAPES: usize = 16;
+    for it in 0..n {
+        let st = *rng.pick(&[UINT64, INT64, UINT32, INT32]);
+        let owner_a = (it % 3) as u64;
+        let owner_b = ((it / 3) % 3) as u64;
+        let ctx = match catch(|| simple_context(|g| {
+            let a = g.input(array_type(vec![2], st))?;
+            let b = g.input(array_type(vec![2], BIT))?;
+            a.mixed_multiply(b)
+        })) {
+            Ok(Ok(c)) => c,
+            _ => continue,
+        };
+        let in_types = vec![array_type(vec![2], st), array_type(vec![2], BIT)];
+        let ins = vec![IOStatus::Party(owner_a), IOStatus::Party(owner_b)];
+        let outs: Vec<IOStatus> = if it % 2 == 0 { vec![] } else { vec![IOStatus::Party(owner_a)] };
+        let mode = rng.below(3) as u8;
+        let cc = match catch(|| compile(&ctx, &ins, &outs, mode)) {
+            Ok(Ok(c)) => c,
+            _ => continue,
+        };
+        let (ir, _out) = match cc.get_main_graph().and_then(|g| ir_of_graph(&g)) {
+            Ok(x) => x,
+            _ => continue,
+        };
+        let base = gen_inputs_for(&mut rng, &in_types);
+        let bit0 = rng.below(2);
+        let mk = |b0: u64| -> Vec<Value> { vec![base[0].clone(), Value::from_flattened_array(&[b0, 1 - b0], BIT).unwrap()] };
+        let secs = [mk(bit0), mk(1 - bit0)];
+        // DIFFERENT tapes for the two secrets: a predicate gated by a single mask bit is constant over 16
+        // tapes with probability 2^-15, and must then be the opposite constant over 16 other tapes
+        let seeds: Vec<Vec<[u8; 16]>> = (0..2).map(|_| (0..TAPES).map(|_| rng.seed16()).collect()).collect();
+        let mut vals: Vec<Vec<Vec<Value>>> = vec![];
+        let mut ok = true;
+        for (si, sec) in secs.iter().enumerate() {
+            let mut per = vec![];
+            for seed in &seeds[si] {
+                match catch(|| -> ciphercore_base::errors::Result<Vec<Value>> {
+                    let mut prng = PRNG::new(Some(*seed))?;
+                    let gin = global_inputs(&ins, &in_types, sec, &mut prng)?;
+                    global_run(&cc, gin, *seed)
+                }) {
+                    Ok(Ok(v)) => per.push(v),
+                    _ => {
+                        ok = false;
+                        break;
+                    }
+                }
+            }
+            vals.push(per);
+        }
+        if !ok {
+            continue;
+        }
+        let cfg = config_name(&ins, &outs, mode);
+        if std::env::var("CCV_C03_DUMP").is_ok() && it == 0 {
+            for (i, nd) in ir.iter().enumerate().take(40) {
+                let v0 = crate::vals::bytes_of(&vals[0][0][i]);
+                let v1 = crate::vals::bytes_of(&vals[0][1][i]);
+                eprintln!("DUMP node{} {}{:?} sends{:?} ty={:?} tape0={:?} tape1={:?}", i, op_tag(&nd.op), nd.deps, nd.sends, nd.ty, &v0[..v0.len().min(6)], &v1[..v1.len().min(6)]);
+            }
+        }
+        for p in 0..3usize {
+            if p as u64 == owner_b || outs.iter().any(|o| *o == IOStatus::Party(p as u64)) {
+                continue;
+            }
+            let descr = format!("ot-leak-search {}[2] (party {}) mixed_multiply bit[2] (party {}) {} observer {} (not a recipient, does not own the bits)", crate::vals::st_name(st), owner_a, owner_b, cfg, p);
+            run.oracle_case(&descr, true);
+            // what the observer sees or can compute
+            let holders = ir_key_holders(&ir);
+            let mut known: Vec<bool> = vec![];
+            let mut input_id = 0;
+            let mut ints: Vec<usize> = vec![];
+            let mut bits: Vec<usize> = vec![];
+            for (i, nd) in ir.iter().enumerate() {
+                let mut inview = nd.sends.iter().any(|(_, r)| *r as usize == p);
+                match &nd.op {
+                    Operation::Input(_) => {
+                        let s = &ins[input_id];
+                        input_id += 1;
+                        inview |= matches!(s, IOStatus::Party(o) if *o as usize == p);
+                    }
+                    Operation::PRF(_, _) | Operation::PermutationFromPRF(_, _) => {
+                        if let Some(k) = ir_key_of(&ir, nd.deps[0] as usize) {
+                            inview |= holders.get(&k).map(|x| x[p]).unwrap_or(false);
+                        }
+                    }
+                    Operation::Random(_) => {}
+                    _ => inview |= nd.deps.iter().all(|d| known[*d as usize]),
+                }
+                known.push(inview);
+                if !inview {
+                    continue;
+                }
+                match &nd.ty {
+                    Type::Array(s, t) if s.len() == 1 && s[0] == 2 && *t == st => ints.push(i),
+                    Type::Array(s, t) if s.len() == 1 && s[0] == 2 && *t == BIT => bits.push(i),
+                    _ => {}
+                }
+            }
+            let bits_w = scalar_size_in_bits(st);
+            let mask: u128 = (1u128 << bits_w) - 1;
+            let at = |s: usize, t: usize, i: usize| -> u128 { vals[s][t][i].to_flattened_array_u128(ir[i].ty.clone()).map(|a| a[0]).unwrap_or(0) };
+            // distinct integer entries (by their values in all 16 runs), latest first, at most 30
+            let mut sel: Vec<(usize, Vec<u128>)> = vec![];
+            for i in ints.iter().rev() {
+                let sig: Vec<u128> = (0..2).flat_map(|s| (0..TAPES).map(move |t| (s, t))).map(|(s, t)| at(s, t, *i)).collect();
+                if sig.iter().all(|x| *x == 0) || sel.iter().any(|(_, q)| *q == sig) {
+                    continue;
+                }
+                sel.push((*i, sig));
+                if sel.len() == 30 {
+                    break;
+                }
+            }
+            let mut bsel: Vec<(usize, Vec<u128>)> = vec![(usize::MAX, vec![1; 2 * TAPES])];
+            for i in bits.iter().rev() {
+                let sig: Vec<u128> = (0..2).flat_map(|s| (0..TAPES).map(move |t| (s, t))).map(|(s, t)| at(s, t, *i)).collect();
+                if !bsel.iter().any(|(_, q)| *q == sig) {
+                    bsel.push((*i, sig));
+                }
+                if bsel.len() == 24 {
+                    break;
+                }
+            }
+            if std::env::var("CCV_C03_WHY").is_ok() {
+                for (i, sig) in &bsel {
+                    if *i != usize::MAX {
+                        eprintln!("BIT {} node{} {}{:?} sends{:?} : {:?}", descr.chars().take(60).collect::<String>(), i, op_tag(&ir[*i].op), ir[*i].deps, ir[*i].sends, sig);
+                    }
+                }
+            }
+            run.count_n("ot-leak-search:integer-entries", sel.len() as u64);
+            run.count_n("ot-leak-search:bit-entries", bsel.len() as u64);
+            let m = sel.len();
+            let mut found: Option<String> = None;
+            let mut idx: Vec<usize> = vec![];
+            fn rec(depth: usize, start: usize, m: usize, idx: &mut Vec<usize>, f: &mut dyn FnMut(&[usize]) -> bool) -> bool {
+                if idx.len() >= 2 && f(idx) {
+                    return true;
+                }
+                if depth == 5 {
+                    return false;
+                }
+                for j in start..m {
+                    idx.push(j);
+                    if rec(depth + 1, j + 1, m, idx, f) {
+                        return true;
+                    }
+                    idx.pop();
+                }
+                false
+            }
+            let mut test = |ix: &[usize]| -> bool {
+                for signs in 0..(1u32 << (ix.len() - 1)) {
+                    let mut zero = [false; 2 * TAPES];
+                    let mut any = false;
+                    let mut all = true;
+                    for r in 0..2 * TAPES {
+                        let mut acc: u128 = 0;
+                        for (k, j) in ix.iter().enumerate() {
+                            let neg = k > 0 && (signs >> (k - 1)) & 1 == 1;
+                            let v = sel[*j].1[r];
+                            acc = if neg { acc.wrapping_sub(v) } else { acc.wrapping_add(v) } & mask;
+                        }
+                        zero[r] = acc == 0;
+                        any |= zero[r];
+                        all &= zero[r];
+                    }
+                    if !any || all {
+                        continue;
+                    }
+                    for (bi, bsig) in &bsel {
+                        // predicate [F = 0] == β
+                        let pr = |r: usize| zero[r] == (bsig[r] & 1 == 1);
+                        let a0 = pr(0);
+                        if (1..TAPES).all(|t| pr(t) == a0) && (TAPES..2 * TAPES).all(|r| pr(r) != a0) {
+                            let terms: Vec<String> = ix.iter().enumerate().map(|(k, j)| format!("{}node{}", if k > 0 && (signs >> (k - 1)) & 1 == 1 { "-" } else { "+" }, sel[*j].0)).collect();
+                            let what: Vec<String> = ix.iter().map(|j| { let i = sel[*j].0; format!("node{}={}{:?}{}", i, op_tag(&ir[i].op), ir[i].deps, if ir[i].sends.is_empty() { String::new() } else { format!("sends{:?}", ir[i].sends) }) }).collect();
+                            found = Some(format!("the predicate [{} = 0] = {} (element 0) is {} for all {} tapes when the hidden bit is {} and {} for all {} tapes when it is {} ; {}", terms.join(" "), if *bi == usize::MAX { "true".to_owned() } else { format!("bit node{}", bi) }, a0, TAPES, bit0, !a0, TAPES, 1 - bit0, what.join(" ")));
+                            return true;
+                        }
+                    }
+                }
+                false
+            };
+            rec(0, 0, m, &mut idx, &mut test);
+            if let Some(why) = found {
+                run.oracle_fail("C03:leak:mixed-multiply:oblivious-transfer", format!("{} : {} ; integer input {:?}", descr, why, crate::vals::bytes_of(&base[0])));
+            }
+        }
+    }
 }
 
 /// (T) export classified graphs + certificates of a fixed corpus; Lean decides `discOk ∧ compOk`.
